@@ -23,6 +23,8 @@ Record access := A {
 Definition guards : list (string * string * string) := [
   ("ipfscluster.Cluster", "alerts", "alertsMux");
   ("ipfscluster.Cluster", "shutdownB", "shutdownLock");
+  ("ipfscluster.Cluster", "removed", "shutdownLock");
+  ("ipfscluster.Cluster", "readyB", "shutdownLock");
   ("optracker.OperationTracker", "operations", "mu");
   ("optracker.Operation", "phase", "mu");
   ("optracker.Operation", "error", "mu");
@@ -113,6 +115,64 @@ Definition lock_order_okb (es : list edge) : bool := forallb (edge_okb es) es.
 (* edges that lie on a cycle or lead out of one *)
 Definition bad_edges (es : list edge) : list string :=
   map (fun e => fst (fst e) ++ " -> " ++ snd (fst e) ++ " at " ++ snd e) (filter (fun e => negb (edge_okb es e)) es).
+
+(* ---- the wait-for graph: nesting pairs + (held lock -> group waited for) + (group -> what a covered unit acquires / waits for) ---- *)
+Definition wait_site := (string * list string * string * string)%type.   (* function [-> callees], locks held, group, position *)
+Definition wait_site_edges (w : wait_site) : list edge :=
+  let '(fn, held, g, pos) := w in map (fun h => (h, g, fn ++ " " ++ pos)) held.
+Definition wait_edges (nesting : list edge) (waits : list wait_site) (covers : list edge) : list edge :=
+  nesting ++ flat_map wait_site_edges waits ++ covers.
+Definition wait_graph_okb (nesting : list edge) (waits : list wait_site) (covers : list edge) : bool :=
+  lock_order_okb (wait_edges nesting waits covers).
+
+(* the simple cycles of a (small) graph, each as its list of edges: those through the first node, then those of the
+   graph without that node, ... (for the diagnosis only; the obligation is the rank test above) *)
+Definition e_src (e : edge) : string := fst (fst e).
+Definition e_dst (e : edge) : string := snd (fst e).
+Fixpoint cyc_walk (fuel : nat) (es : list edge) (start cur : string) (path : list edge) : list (list edge) :=
+  match fuel with
+  | O => []
+  | S f =>
+    flat_map (fun e =>
+      if String.eqb (e_src e) cur then
+        if String.eqb (e_dst e) start then [rev (e :: path)]
+        else if String.eqb (e_dst e) cur || existsb (fun p => String.eqb (e_src p) (e_dst e)) path then []
+        else cyc_walk f es start (e_dst e) (e :: path)
+      else []) es
+  end.
+Fixpoint cycles_aux (nodes : list string) (es : list edge) : list (list edge) :=
+  match nodes with
+  | [] => []
+  | v :: vs => cyc_walk (S (length es)) es v v [] ++
+               cycles_aux vs (filter (fun e => negb (String.eqb (e_src e) v) && negb (String.eqb (e_dst e) v)) es)
+  end.
+Fixpoint dedup (l : list string) : list string :=
+  match l with [] => [] | x :: t => x :: filter (fun y => negb (String.eqb x y)) (dedup t) end.
+Definition cycles (es : list edge) : list (list edge) := cycles_aux (dedup (map e_src es)) es.
+Definition show_cycle (c : list edge) : string :=
+  match c with
+  | [] => ""
+  | e :: _ => "cycle: " ++ e_src e ++ String.concat "" (map (fun x => " -> " ++ e_dst x ++ " [" ++ snd x ++ "]") c)
+  end.
+(* the cycles when the rank test fails (if it fails and no cycle is found, the edges the ranks do not respect) *)
+Definition wait_cycles (nesting : list edge) (waits : list wait_site) (covers : list edge) : list string :=
+  let es := wait_edges nesting waits covers in
+  if lock_order_okb es then []
+  else match cycles es with [] => bad_edges es | cs => map show_cycle (firstn 16 cs) end.
+Definition show_wait (w : wait_site) : string :=
+  let '(fn, held, g, pos) := w in pos ++ " " ++ fn ++ " waits for " ++ g ++ " holding {" ++ String.concat "," held ++ "}".
+
+(* the table still contains the waits the property is about: (group, must the table list code units it covers?) *)
+Definition expected_waits : list (string * bool) :=
+  [("wg:ipfscluster.Cluster.wg", true);      (* Cluster.Shutdown collects the goroutines of NewCluster / run / Join *)
+   ("wg:stateless.Tracker.wg", false)].      (* Tracker.Shutdown waits for a WaitGroup nothing is registered in *)
+Definition wait_covered_okb (waits : list wait_site) (members : list (string * string * string)) (x : string * bool) : bool :=
+  existsb (fun w => String.eqb (snd (fst w)) (fst x)) waits &&
+  (negb (snd x) || existsb (fun m => String.eqb (fst (fst m)) (fst x)) members).
+Definition wait_coverage_okb waits members : bool := forallb (wait_covered_okb waits members) expected_waits.
+Definition wait_uncovered waits members : list string :=
+  map (fun x : string * bool => fst x ++ ": no Wait() on it in the table" ++ (if snd x then ", or no code unit it covers" else ""))
+      (filter (fun x => negb (wait_covered_okb waits members x)) expected_waits).
 
 (* ---- accessors: all reads/writes a value-returning function makes under one guard share one critical section ---- *)
 Definition guard_sec (a : access) : N :=
